@@ -198,7 +198,9 @@ func (hash *SexpHash) HashGet(env *Zlisp, key Sexp) (res Sexp, err error) {
 			panic("cannot have nil symbol for key")
 		}
 		//P("HashGet, sym = '%v'. isDot=%v", sym.SexpString(nil), sym.isDot)
-		if sym.isDot {
+		if sym.isDot && env != nil {
+			// a dot path needs an interpreter to intern its parts; printing
+			// code calls HashGet without one and means the key itself.
 			return hash.DotPathHashGet(env, sym)
 		}
 
@@ -322,6 +324,7 @@ func (h *SexpHash) TypeCheckField(key Sexp, val Sexp) error {
 				if len(a.Val) == 0 {
 					return nil // okay
 				}
+				return fmt.Errorf("%v has nil Type", val.SexpString(nil))
 			case *SexpSentinel:
 				return nil // okay
 			default:
